@@ -1,12 +1,35 @@
+// ASan driver: reads cases from stdin, one per line:  <min> <max> <keyhex32> <final> <datahex|->
+// Every buffer is an exact-size heap block, so any read past the logical end hits a redzone.
 #include REPLICAT_ADAPTERS_CPP
 #include <cstdio>
 #include <cstdlib>
 #include <cstring>
-int main(int argc, char** argv) {
-    size_t mn = atoi(argv[1]), mx = atoi(argv[2]), n = atoi(argv[3]); int fin = atoi(argv[4]);
-    char key[16]; memset(key, 0xFF, 16);
-    gclmulchunker c(mn, mx, py::buffer(key, 16));
-    char* buf = (char*)malloc(n); memset(buf, 'a', n);   // exact-size heap block: ASan redzone right after
-    size_t r = c.next_cut(py::buffer(buf, n), fin);
-    printf("cut=%zu\n", r); free(buf); return 0;
+#include <string>
+#include <vector>
+#include <iostream>
+static int hexv(char c) { return c <= '9' ? c - '0' : (c | 32) - 'a' + 10; }
+int main() {
+    std::string line;
+    long idx = 0;
+    while (std::getline(std::cin, line)) {
+        size_t mn, mx; int fin; char keyhex[64], *datahex;
+        std::vector<char> dbuf(line.size() + 1);
+        if (sscanf(line.c_str(), "%zu %zu %32s %d %s", &mn, &mx, keyhex, &fin, dbuf.data()) != 5) continue;
+        char key[16];
+        for (int i = 0; i < 16; i++) key[i] = (char)(hexv(keyhex[2 * i]) * 16 + hexv(keyhex[2 * i + 1]));
+        datahex = dbuf.data();
+        size_t n = (datahex[0] == '-') ? 0 : strlen(datahex) / 2;
+        char* buf = (char*)malloc(n ? n : 1);
+        for (size_t i = 0; i < n; i++) buf[i] = (char)(hexv(datahex[2 * i]) * 16 + hexv(datahex[2 * i + 1]));
+        fprintf(stderr, "CASE %ld\n", idx); fflush(stderr);
+        try {
+            gclmulchunker c(mn, mx, py::buffer(key, 16));
+            size_t r = c.next_cut(py::buffer(buf, n), fin != 0);
+            printf("%ld %zu\n", idx, r);
+        } catch (const std::exception& e) { printf("%ld ERR\n", idx); }
+        free(buf);
+        idx++;
+    }
+    fflush(stdout);
+    return 0;
 }
